@@ -884,6 +884,7 @@ def run(ctx):
 
 
 SELFTESTS = [
+    (rule_resource_typestate, ["c08_null_bad.c"], ["c08_null_good.c"], "f@fclose"),
     (rule_option_tables, ["c08_opts_bad.c"], ["c08_opts_good.c"], "--dump"),
     (rule_exit_status, ["c08_opts_bad.c"], ["c08_opts_good.c"], "return#"),
     (rule_cursor_discipline, ["c08_cursor_bad.c"], ["c08_cursor_good.c"], "handle_ext"),
